@@ -168,8 +168,27 @@ def run(chk, repo, tier):
         rets = returns(paths)
         calls = [c for p in rets for c in p.calls('field.boundary')]
         if not calls:
-            raise AnalysisError(f'field.{fn} does not use boundary(fields)')
-        b = [nf.index(calls[0].result, C(i)) for i in range(4)]
+            # the bounding box is handed in: find the parameter that _merge binds to boundary(fields)
+            from ..rules import quad
+            _, mp, _ = analyse(repo, 'field._merge')
+            par = None
+            for q in returns(mp):
+                bnds = [c for c in q.calls('field.boundary') if c.bound.get('fields') == S('fields')]
+                for c in q.calls(f'field.{fn}'):
+                    for nm, v in c.bound.items():
+                        if bnds and v == bnds[0].result:
+                            par = nm
+            if par is None:
+                chk.undecided('C06-b', 'N-identity', f.key, 'consistent with the bounding box of the fields',
+                              'neither calls boundary(fields) nor receives its result from _merge', f.loc())
+                continue
+            bq = quad('bounds')
+            f, paths, _ = analyse(repo, f'field.{fn}', config={par: bq},
+                                  inline=[k.key for k in repo.all_functions() if k.module.name == 'extent'])
+            rets = returns(paths)
+            b = list(bq.items)
+        else:
+            b = [nf.index(calls[0].result, C(i)) for i in range(4)]
         general = [p for p in rets if not any(pol for c, pol, _ in p.conds)] or rets[-1:]
         p = general[-1]
         if fn == '_merge_shape':
@@ -186,7 +205,11 @@ def run(chk, repo, tier):
             cands = [e.data['args'][0] for e in p.events
                      if e.kind == 'write' and e.data.get('how') == 'method:append' and e.in_loop]
             ra = p.ret.single_atom() if isinstance(p.ret, Poly) else None
-            if ra is not None and is_app(ra, ('listcomp', 'genexp')) and len(ra[2]) == 2 and ra[2][1] == S('fields'):
+            def over_fields(seq):
+                sa = seq.single_atom() if isinstance(seq, Poly) else None
+                return seq == S('fields') or (sa is not None and is_app(sa, ('listcomp', 'genexp')) and len(sa[2]) == 2
+                                              and over_fields(sa[2][1]))
+            if ra is not None and is_app(ra, ('listcomp', 'genexp')) and len(ra[2]) == 2 and over_fields(ra[2][1]):
                 cands.append(ra[2][0].single_atom()[1] if isinstance(ra[2][0], Poly) and ra[2][0].single_atom() is not None
                              and ra[2][0].single_atom()[0] == 'val' else ra[2][0])
             for v in cands:
@@ -206,8 +229,10 @@ def run(chk, repo, tier):
                             good = s.lo == lo - b[2 * k] and s.hi - s.lo == hi - lo + 1
                             if not good:
                                 ok, det = False, f'axis {k}: slice {fmt(s)}; expected {fmt(lo - b[2 * k])}:{fmt(hi - b[2 * k] + 1)}'
-            chk.ob('C06-b', 'N-identity', f.key, 'slice = field extent relative to the bounding box', ok and n > 0,
-                   det or 'start = fmin - min, length = fmax - fmin + 1 on both axes', f.loc())
+            chk.ob('C06-b', 'N-identity', f.key, 'slice = field extent relative to the bounding box',
+                   (ok and n > 0) if (n or not ok) else None,
+                   det or ('start = fmin - min, length = fmax - fmin + 1 on both axes' if n else
+                           f'undecided: no per-field (row, col) slice pair recognised in {fmt(p.ret)[:100]}'), f.loc())
 
     # ---------------------------------------------------------------- C06-c
     insert_rules(chk, repo)
@@ -341,6 +366,8 @@ def insert_rules(chk, repo, clause='C06-c'):
 
 def product_rules(chk, repo, clause='C06-d'):
     """Field products: scalar broadcasting (mirror-image cases) and the overlap product (C06-d; reused by C03, C07)."""
+    if not repo.has_func('field._mul_broadcast'):
+        return product_by_reference(chk, repo, clause)
     f, paths, _ = analyse(repo, 'field._mul_broadcast')
     ad, ao, bd, bo = S('a_data'), S('a_offset'), S('b_data'), S('b_offset')
     sw = {('sym', 'a_data'): bd, ('sym', 'b_data'): ad, ('sym', 'a_offset'): bo, ('sym', 'b_offset'): ao}
@@ -394,7 +421,41 @@ def product_rules(chk, repo, clause='C06-d'):
             okm, det = False, f'product {fmt(data)} at offset {fmt(off)} is not built from the intersection of the broadcast extents'
     chk.ob(clause, 'D-flow', fm.key, 'product = overlapping parts of the broadcast operands at the intersection shift',
            okm and nn > 0, det, fm.loc())
+    product_by_reference(chk, repo, clause)
 
+
+
+MUL_ARRAY_REFERENCE = """
+def _mul_array(self, other):
+    a_data, a_offset, b_data, b_offset = self.data, self.offset, other.data, other.offset
+    if a_data.shape != b_data.shape:
+        if a_data.size == 1:
+            a_data = np.broadcast_to(a_data, b_data.shape)
+            a_offset = b_offset
+        if b_data.size == 1:
+            b_data = np.broadcast_to(b_data, a_data.shape)
+            b_offset = a_offset
+    a_extent = lentil.extent.array_extent(a_data.shape, a_offset)
+    b_extent = lentil.extent.array_extent(b_data.shape, b_offset)
+    if lentil.extent.intersect(a_extent, b_extent):
+        a_slice, b_slice = lentil.extent.intersection_slices(a_extent, b_extent)
+        return a_data[a_slice] * b_data[b_slice], lentil.extent.intersection_shift(a_extent, b_extent)
+    return [], None
+"""
+
+
+def product_by_reference(chk, repo, clause):
+    """The broadcasting helper is gone (merged / restructured): compare the product of two fields, as a value, with the
+    reference construction - a one-element operand takes the other's shape and offset, the product is taken over the
+    intersection of the two extents and sits at the intersection shift, and there is no product without overlap."""
+    from .common import agrees_with_reference
+    from .extent_rules import extent_inline
+    inl = extent_inline(repo) + [f.key for f in repo.all_functions() if f.module.name == 'field' and f.cls is None
+                                 and f.name.startswith('_mul')]
+    cls = repo.cls('field.Field')
+    agrees_with_reference(chk, clause, repo, 'field.Field._mul_array', MUL_ARRAY_REFERENCE,
+                          'product of two fields = reference construction', inline=inl,
+                          types={('sym', 'self'): cls, ('sym', 'other'): cls})
 
 
 def scalar_product_rule(chk, repo, clause='C06-d'):
@@ -448,8 +509,9 @@ def disjoint_rules(chk, repo):
         ext = [i for i, e in enumerate(evs) if e.kind == 'write' and (e.data.get('how') == 'method:extend' or
                                                                      (e.data.get('how') == 'augassign' and e.data.get('op') == 'add'))]
         bnd = [i for i, e in enumerate(evs) if e.kind == 'call' and e.data.get('callee') == 'field.boundary']
+        bres = {nf.vkey(evs[i].data.get('result')) for i in bnd}
         st = [i for i, e in enumerate(evs) if e.kind == 'write' and e.data.get('how') == 'setitem'
-              and e.data.get('key') == nf.Const('extent')]
+              and (e.data.get('key') == nf.Const('extent') or (e.data.get('value') is not None and nf.vkey(e.data.get('value')) in bres))]
         n_ord += 1
         good = len(ext) == 1 and len(bnd) == 1 and len(st) == 1 and ext[0] < bnd[0] < st[0]
         if good:
@@ -497,7 +559,15 @@ def disjoint_rules(chk, repo):
                         classify(e.data['args'][0], [(c, pl) for c, pl, _ in conds])
         ra = p.ret.single_atom() if isinstance(p.ret, Poly) else None
         if ra is not None and is_app(ra, 'listcomp'):
-            classify(ra[2][0], [(c, pl) for c, pl, _ in p.conds])
+            ea = ra[2][0].single_atom() if isinstance(ra[2][0], Poly) else None
+            if ea is not None and is_app(ea, 'ifexp') and len(ea[2]) == 3:
+                # one element per group, chosen by a conditional expression
+                from ..interp import canon_cond
+                for val, pol in ((ea[2][1], True), (ea[2][2], False)):
+                    cc, cp = canon_cond(ea[2][0], pol)
+                    classify(val, [(cc, cp)])
+            else:
+                classify(ra[2][0], [(c, pl) for c, pl, _ in p.conds])
     okr = (merged and single) if recognised else None
     chk.ob('C06-f', 'structural', fr.key, 'groups with more than one member are merged, singletons passed through', okr,
            '', fr.loc())
